@@ -138,6 +138,21 @@ pub fn seed_files() -> Vec<(String, Vec<u8>)> {
     files
 }
 
+/// a directory whose middle chunk file is missing: `RaftLog::open` takes the
+/// lock, then fails ("Gap between chunks"); `Dump::new` only needs the lock
+pub fn seed_files_gap() -> Vec<(String, Vec<u8>)> {
+    let mut sut = crate::sut::Sut::open(Cfg::records(2)).expect("seed store");
+    for i in 0..3u64 {
+        let _ = sut.call(&Op::Append(vec![((1, i), payload((1, i), 0))]));
+    }
+    sut.flush_wait().expect("seed flush");
+    sut.close();
+    let mut files = imagex::read_files(&sut.dir.path);
+    assert!(files.len() >= 3, "gap seed needs three chunk files");
+    files.remove(1);
+    files
+}
+
 fn restore(dir: &str, files: &[(String, Vec<u8>)]) {
     for (n, _) in crate::sut::list_files(dir) {
         let _ = std::fs::remove_file(format!("{}/{}", dir, n));
@@ -149,9 +164,9 @@ fn restore(dir: &str, files: &[(String, Vec<u8>)]) {
 
 type Step = (usize, char);
 
-fn enumerate(depth: usize, n: usize) -> Vec<Vec<Step>> {
+fn enumerate(depth: usize, n: usize, store_opens: bool) -> Vec<Vec<Step>> {
     // model-pruned: D only for a contender that holds something
-    fn rec(depth: usize, n: usize, held: &mut Vec<usize>, cur: &mut Vec<Step>, out: &mut Vec<Vec<Step>>) {
+    fn rec(depth: usize, n: usize, store_opens: bool, held: &mut Vec<usize>, cur: &mut Vec<Step>, out: &mut Vec<Vec<Step>>) {
         if cur.len() == depth {
             out.push(cur.clone());
             return;
@@ -167,19 +182,19 @@ fn enumerate(depth: usize, n: usize) -> Vec<Vec<Step>> {
                 match cmd {
                     'D' => held[c] -= 1,
                     _ => {
-                        if total == 0 {
+                        if total == 0 && (store_opens || cmd == 'U') {
                             held[c] += 1
                         }
                     }
                 }
-                rec(depth, n, held, cur, out);
+                rec(depth, n, store_opens, held, cur, out);
                 held[c] = before;
                 cur.pop();
             }
         }
     }
     let mut out = vec![];
-    rec(depth, n, &mut vec![0; n], &mut vec![], &mut out);
+    rec(depth, n, store_opens, &mut vec![0; n], &mut vec![], &mut out);
     out
 }
 
@@ -188,10 +203,25 @@ fn seq_text(s: &[Step]) -> String {
 }
 
 pub fn run(rep: &Reporter, thorough: bool) -> Value {
-    let depth = if thorough { 7 } else { 5 };
+    let a = run_flavour(rep, if thorough { 7 } else { 5 }, true);
+    // a store open that FAILS after it took the lock (gap between chunks) must
+    // release it: the same exploration on a directory no store can open
+    let b = run_flavour(rep, if thorough { 6 } else { 4 }, false);
+    let mut out = a.clone();
+    if let (Some(o), Some(bo)) = (out.as_object_mut(), b.as_object()) {
+        for k in ["states", "transitions", "traces_validated_against_impl"] {
+            let n = o[k].as_u64().unwrap_or(0) + bo[k].as_u64().unwrap_or(0);
+            o.insert(k.to_string(), json!(n));
+        }
+        o.insert("unopenable_directory_flavour".to_string(), b.clone());
+    }
+    out
+}
+
+fn run_flavour(rep: &Reporter, depth: usize, store_opens: bool) -> Value {
     let nproc = 3;
-    let seqs = enumerate(depth, nproc);
-    let seed = seed_files();
+    let seqs = enumerate(depth, nproc, store_opens);
+    let seed = if store_opens { seed_files() } else { seed_files_gap() };
     let groups_n = 2 * std::thread::available_parallelism().map(|n| n.get()).unwrap_or(8);
     let steps = AtomicU64::new(0);
     let refused = AtomicU64::new(0);
@@ -225,11 +255,19 @@ pub fn run(rep: &Reporter, thorough: bool) -> Value {
                         let mk = |key: &str, what: String| Violation {
                             prop: rep.prop.clone(),
                             key: key.to_string(),
-                            what: format!("{} | step {} of sequence [{}]", what, k + 1, seq_text(seq)),
-                            replay: json!({"engine":"lockx","sequence": seq_text(seq), "step": k + 1}),
+                            what: format!("{} | step {} of sequence [{}] | directory: {}", what, k + 1, seq_text(seq), if store_opens { "two chunks, torn tail" } else { "middle chunk missing (no store can open it)" }),
+                            replay: json!({"engine":"lockx","sequence": seq_text(seq), "step": k + 1, "directory": if store_opens { "torn-tail" } else { "missing-middle-chunk" }}),
                         };
                         match cmd {
                             'D' => held[*c] -= 1,
+                            'O' if total == 0 && !store_opens => {
+                                // nobody holds the lock; the open must fail on the gap
+                                // (not by a panic) and must not keep the lock
+                                if resp == "ok" || resp == "panic" {
+                                    rep.report(mk("unopenable-directory-opened", format!("RaftLog::open on a directory with a missing middle chunk returned {}", resp)));
+                                    break;
+                                }
+                            }
                             _ => {
                                 if total == 0 {
                                     if resp != "ok" {
